@@ -240,6 +240,7 @@ func GenWorld(rng *rand.Rand, p Profile) *World {
 		}
 		if p.RetryHeavy && len(w.PQs) == 0 {
 			pq.SizeClasses = pick(rng, [][]uint32{{1, 4}, {1, 2, 8}, {2, 5}})
+			pq.MaxBG = pick(rng, []int{0, 1, 1, 2})
 		}
 		k := pq.Prefix + "|" + CanonPlatform(pq.Props)
 		if used[k] {
@@ -335,6 +336,9 @@ func GenWorld(rng *rand.Rand, p Profile) *World {
 		}
 		if p.RetryHeavy && rng.IntN(10) < 6 {
 			ad.Script.Index, ad.Script.RetryOnFail = 0, true
+		}
+		if p.RetryHeavy && rng.IntN(2) == 0 {
+			ad.Script.Background = true
 		}
 		w.Actions = append(w.Actions, ad)
 	}
@@ -516,6 +520,16 @@ func (c *Case) realObs(sp *syncPair) *syncObs {
 // classifyUnexpectedTask says which property is violated when the
 // implementation told worker w to execute something the model does not allow.
 func (c *Case) classifyUnexpectedTask(w *MWorker, obs *syncObs) (string, []string, string) {
+	for _, t := range c.M.Tasks {
+		if obs.Hash == t.Hash && obs.QueuedTS.Equal(t.QueuedTS) && !t.Completed && (t.Worker == nil || t.Worker == w) && t.scq() == w.SCQ {
+			if obs.DNC != (t.DoNotCache || t.Background) && obs.DNC == t.DoNotCache && t.Background {
+				return "background-learning-task-is-cacheable", []string{"C07"}, "a background learning task was handed out without do_not_cache"
+			}
+			if obs.DNC == (t.DoNotCache || t.Background) && obs.Timeout != t.Timeout {
+				return "action-timeout-differs", []string{"C07"}, fmt.Sprintf("%s was handed out with timeout %s, the size-class analyzer chose %s", taskStr(t), obs.Timeout, t.Timeout)
+			}
+		}
+	}
 	var match *MTask
 	sameDigestLive := false
 	for _, t := range c.M.Tasks {
@@ -635,6 +649,20 @@ func (c *Case) ChooseWorker(t *MTask, cands []*MWorker) int {
 func (c *Case) compareStream(sp *streamPair) {
 	msgs := sp.call.Stream.Messages()
 	exp := sp.m.Expect
+	// The routing decision of Execute comes first: was the request
+	// accepted into a queue or rejected?
+	if sp.call.Kind == "Execute" && sp.m.State != "running" && sp.m.State != "" {
+		modelAccepted := sp.m.Op != nil
+		realRejected := sp.call.Done() && len(msgs) == 0 && sp.call.Err != nil
+		if modelAccepted && realRejected && len(exp) > 0 && sp.m.SendErr == "" {
+			c.diverge("request-rejected-although-a-queue-matches", []string{"C05"}, "stream %d: Execute returned %v, but a platform queue matches the request (longest instance name prefix, equal platform)", sp.m.ID, sp.call.Err)
+			return
+		}
+		if !modelAccepted && len(msgs) > 0 {
+			c.diverge("request-accepted-although-no-queue-matches", []string{"C05"}, "stream %d: Execute was accepted (first message %+v), but no platform queue matches the request; expected %s", sp.m.ID, brief(msgs[0]), sp.m.RetCode)
+			return
+		}
+	}
 	// Structural rules first (they do not need the model).
 	doneAt := -1
 	for i, mm := range msgs {
@@ -857,6 +885,14 @@ func (c *Case) compareAll() {
 	c.M.Violations = nil
 	if c.stop {
 		return
+	}
+	if c.P.Name == "C07" {
+		// For the property that owns the size-class protocol, compare
+		// the analyzer calls before anything they may cause downstream.
+		c.checkProtoLog(false)
+		if c.stop {
+			return
+		}
 	}
 	for _, sp := range c.streams {
 		c.compareStream(sp)
@@ -2111,6 +2147,24 @@ func (c *Case) scenarioPrelude() []Step {
 			// on the largest size class.
 			c.sit("scenario:duplicate-during-retry-on-largest")
 			return []Step{idle(small), exec("x"), done(small, "deadline"), exec("y"), exec("x"), idle(large), exec("y/p"), done(large, "ok"), idle(large)}
+		case 4:
+			// Background learning backlog: successes that each ask
+			// for a background run while nobody serves the
+			// background size class (or the worker prefers idling).
+			if !a.Script.Background || pq.MaxBG == 0 {
+				return nil
+			}
+			c.sit("scenario:background-learning-backlog-limit")
+			pi := func(w int) Step {
+				st := done(w, "ok")
+				st.PI = true
+				return st
+			}
+			st := []Step{idle(small), exec("x"), pi(small)}
+			for k := 0; k <= pq.MaxBG; k++ {
+				st = append(st, exec(fmt.Sprintf("y%d", k)), idle(small), pi(small))
+			}
+			return st
 		case 3:
 			// Foreground task, background learning task for the same
 			// digest, a second foreground task, completion of the
